@@ -198,7 +198,12 @@ class Routing:
         self.blocked = blocked_now
 
     def idle_longest(self, env, received_now, prev, cen, rewired):
+        """Judge every hand-over of a single part from a holder to one of its direct plain single-slot
+        downstreams.  A buffer may release several parts in ONE event: the hand-overs are replayed in
+        order, the idle stamps being updated after each (a receiver is busy afterwards; a zero-cycle sink
+        is free again at once but idle only since now)."""
         ctx, m = self.ctx, self.m
+        now = env.now
         moves = {}
         for did, part in received_now:
             if did not in self.single or getattr(part, 'parts', None) is not None:
@@ -208,50 +213,65 @@ class Routing:
                 continue
             moves.setdefault(loc[0], []).append((did, part))
         for sender, lst in moves.items():
-            if len(lst) != 1:
+            if len(lst) > 1 and self.kind.get(sender) != 'buffer':
                 continue
-            recv, part = lst[0]
             sdev = m.devs[sender]
             direct = [m.id_of.get(id(d)) for d in sdev._downstream]
-            if recv not in direct:
-                continue
-            cands = []
-            ambiguous = False
+            # state of the candidates at the moment of each hand-over
+            busy = {}
+            since = {}
             for c in direct:
-                if c not in self.single:
-                    ambiguous = True      # a pass-through / buffer / batcher competes: not the stated situation
-                    continue
-                ps = prev.slots[c]
-                if ps['in'] is not None or ps['out'] is not None:
-                    continue
-                if self.blocked.get(c) or not self.was_empty[c]:
-                    continue
-                it = m.items[c]
-                if it['kind'] == 'processor' and it.get('res'):
-                    ambiguous = True
-                    continue
-                if not self.clean[c] or c in rewired or sender in rewired:
-                    ambiguous = True
-                    continue
-                cands.append(c)
-            if recv not in cands or len(cands) < 2 or ambiguous:
-                if len(direct) >= 2:
+                if c in self.single:
+                    ps = prev.slots[c]
+                    busy[c] = ps['in'] is not None or ps['out'] is not None or not self.was_empty[c]
+                    since[c] = self.empty_since[c]
+            for recv, part in lst:
+                if recv not in direct:
+                    break
+                cands = []
+                ambiguous = False
+                for c in direct:
+                    if c not in self.single:
+                        ambiguous = True      # a pass-through / buffer / batcher competes: not the stated situation
+                        continue
+                    if busy[c] or self.blocked.get(c):
+                        continue
+                    it = m.items[c]
+                    if it['kind'] == 'processor' and it.get('res'):
+                        ambiguous = True
+                        continue
+                    if not self.clean[c] or c in rewired or sender in rewired:
+                        ambiguous = True
+                        continue
+                    cands.append(c)
+                judged = False
+                if recv in cands and len(cands) >= 2 and not ambiguous:
+                    best = min(since[c] for c in cands)
+                    winners = [c for c in cands if since[c] == best]
+                    if len(winners) > 1 and recv in winners:
+                        self.not_judged += 1
+                        ctx.count('idle_longest_ties')
+                    else:
+                        judged = True
+                        self.judged += 1
+                        ctx.count('idle_longest_judged')
+                        if len(lst) > 1:
+                            ctx.count('idle_longest_judged_in_multi_release')
+                        if recv not in winners:
+                            ctx.report('idle_longest', f'{sender} passed {part.name} to {recv} (idle since '
+                                       f'{since[recv]!r}) at {now!r} although {winners} has been idle since {best!r}')
+                            return
+                elif len(direct) >= 2:
                     self.not_judged += 1
                     ctx.count('idle_longest_not_judged')
-                continue
-            best = min(self.empty_since[c] for c in cands)
-            winners = [c for c in cands if self.empty_since[c] == best]
-            if len(winners) > 1 and recv in winners:
-                self.not_judged += 1
-                ctx.count('idle_longest_ties')
-                continue
-            self.judged += 1
-            ctx.count('idle_longest_judged')
-            if recv not in winners:
-                ctx.report('idle_longest', f'{sender} passed {part.name} to {recv} (idle since '
-                           f'{self.empty_since[recv]!r}) at {env.now!r} although {winners} has been idle since '
-                           f'{best!r}')
-                return
+                # the receiver's state after this hand-over
+                if recv in busy:
+                    it = m.items[recv]
+                    if it['kind'] == 'sink' and it.get('ct', 0) == 0:
+                        busy[recv] = False
+                        since[recv] = now
+                    else:
+                        busy[recv] = True
 
     def features(self):
         return {'group_exits': self.group_exits, 'idle_judged': self.judged, 'histories': self.histories}
